@@ -68,6 +68,8 @@ impl<'a, 'b: 'a> Decoder<'a, 'b> {
         let start = self.offset;
         self.offset += length;
         if self.offset <= self.bytes.len() {
+            #[cfg(dns_message_parser_verif)]
+            crate::verif::count(length);
             Ok(self.bytes.slice(start..self.offset))
         } else {
             Err(DecodeError::NotEnoughBytes(self.bytes.len(), self.offset))
